@@ -128,6 +128,15 @@ def build(pid, spec, only_unit=None):
     exes = {}
     for u in units:
         exes[u["name"]] = link_unit(u, per_unit[u["name"]], bdir)
+        for aux in u.get("aux", []):
+            # auxiliary binary built next to the unit (e.g. the same rank body against the real MPI); path goes to env AUX_<NAME>
+            out = os.path.join(bdir, aux["name"])
+            srcs = [os.path.join(ROOT, "checks", x) for x in aux["sources"]]
+            cmd = [aux.get("cxx", CXX)] + BASE_FLAGS + aux.get("cxxflags", ["-O1"]) + srcs + ["-o", out] + aux.get("ldflags", [])
+            r = sh(cmd)
+            if r.returncode != 0:
+                print("AUX BUILD FAILED:", " ".join(cmd)); print(r.stdout[-4000:]); sys.exit(2)
+            u.setdefault("env", {})["AUX_" + aux["name"].upper()] = out
     return exes, time.time() - t0
 
 
